@@ -280,6 +280,21 @@ Plan gen_c03(uint64_t seed, bool th) {
     if (g.r.pct(50)) g.add(g.mk("addmatch", i, {-1}, {g.r.pct(50) ? "type='signal'" : "eavesdrop='true'"}));
   g.add(g.bus_step(3));
   g.add(g.mk("check"));
+  if (g.r.pct(25)) {
+    // a monitor watches: what it is shown carries the true sender and none of the injected fields either -
+    // including messages the bus answers itself and messages of connections that have not said Hello
+    int ni = g.sh.nclients++;
+    g.add(g.mk("connect", ni, {0, 0, 1000 + ni, 0, 0}));
+    g.add(g.mk("auth", ni, {1}));
+    g.add(g.mk("hello", ni, {-1}));
+    g.add(g.bus_step(3));
+    g.add(g.mk("drain", ni));
+    g.add(g.mk("becomemonitor", ni, {0, -1}, {}));
+    g.add(g.bus_step(3));
+    g.sh.nclients--;     // never picked as an ordinary actor afterwards
+    msg_ops(g, (int)g.r.range(8, th ? 60 : 26), g.r.pct(50), true, true, true);
+    g.sh.nclients++;
+  } else
   msg_ops(g, (int)g.r.range(8, th ? 60 : 26), g.r.pct(50), true, true, true);
   for (int i = 0; i < 2; i++) g.add(g.mk("query", g.a_client(), {-1}, {"ListNames", ""}));
   return g.p;
@@ -1056,7 +1071,9 @@ Plan gen_c19(uint64_t seed, bool th) {
       std::string dest = g.r.pct(85) ? a_act() : g.a_name();
       int type = g.r.pct(85) ? wire::T_CALL : wire::T_SIGNAL;
       int flags = g.r.pct(12) ? wire::FL_NO_AUTO_START : (g.r.pct(12) ? wire::FL_NO_REPLY_EXPECTED : 0);
-      g.add(g.mk("send", from, {type, flags, g.deliver_mode()}, {dest, "/svc", "com.example.Iface", "Work", "", ""}));
+      // (some carry injected header fields: a held message must reach the service as sanitised as any other)
+      int64_t unk = g.r.pct(20) ? (int64_t)g.r.range(11, 255) : 0, ci = g.r.pct(12) ? (int64_t)g.r.range(1, 9) : 0;
+      g.add(g.mk("send", from, {type, flags, g.deliver_mode(), 0, unk, ci}, {dest, "/svc", "com.example.Iface", "Work", "", g.r.pct(10) ? ":9.99" : ""}));
       started++;
     } else if (x < 46) {
       g.add(g.mk("query", from, {-1}, {"StartServiceByName", g.r.pct(85) ? a_act() : (g.r.pct(50) ? g.a_name() : std::string("com.example.nosuch"))}));
